@@ -101,6 +101,39 @@ fn one(id: u64, v: &Value, seed: u64) -> Vec<Value> {
     let want: Vec<Vec<usize>> = v["M"].as_array().unwrap().iter().map(|row| row.as_array().unwrap().iter().map(|x| x.as_u64().unwrap() as usize - 1).collect()).collect();
     let fams = families();
     let mut records = vec![];
+    // once per run: NO outcome at all (a document whose test cases are all detached): every renderer must still answer,
+    // the structured ones with a well-formed empty list
+    if id == 1 {
+        let none: Vec<&Outcome> = vec![];
+        let pretty = || PrettyColorRenderer { max_surrounding_lines: 1, absolute_line_numbers: false, summarize: true };
+        let renderers: Vec<(&str, Box<dyn Renderer>)> = vec![
+            ("pretty_color", Box::new(pretty())), ("pretty_mono", Box::new(PrettyMonochromeRenderer::new(pretty()))),
+            ("diff", Box::new(DiffRenderer::default())), ("json", Box::new(JsonRenderer::default())), ("yaml", Box::new(YamlRenderer::default())),
+        ];
+        let mut robs = serde_json::Map::new();
+        for (name, r) in renderers {
+            let o = match guarded(|| r.render(&none)) {
+                Err(msg) => json!({"result": "panic", "msg": msg, "missing": 0, "extra": 0, "entries": 0, "kinds_ok": false, "passed_shown": false}),
+                Ok(Err(e)) => json!({"result": "err", "msg": format!("{e:#}"), "missing": 0, "extra": 0, "entries": 0, "kinds_ok": false, "passed_shown": false}),
+                Ok(Ok(text)) => {
+                    if name == "json" || name == "yaml" {
+                        let parsed: Option<Value> = if name == "json" { serde_json::from_str(&text).ok() } else { serde_yaml::from_str(&text).ok() };
+                        match parsed.as_ref().and_then(|p| p.as_array()) {
+                            None => json!({"result": "malformed", "msg": text.chars().take(120).collect::<String>(), "missing": 0, "extra": 0, "entries": 0, "kinds_ok": false, "passed_shown": false}),
+                            Some(arr) => json!({"result": "ok", "msg": "", "missing": 0, "extra": 0, "entries": arr.len(), "kinds_ok": arr.is_empty(), "passed_shown": false}),
+                        }
+                    } else {
+                        json!({"result": "ok", "msg": "", "missing": 0, "extra": 0, "entries": 0, "kinds_ok": true, "passed_shown": false})
+                    }
+                }
+            };
+            robs.insert(name.to_string(), o);
+        }
+        records.push(json!({"ev": "Load", "id": 5, "vid": 0, "family": "no-outcomes", "n": 0, "m": 0, "q": [], "out_model": [],
+                            "main_kind": "none", "kinds": [], "n_outcomes": 0, "surround": 1, "absolute": false,
+                            "format": "markdown", "escaper": "Unicode", "location": false, "line_number": 0,
+                            "final_newline": true, "expectations": [], "obs": robs}));
+    }
     // two text families per vector (one fixed by the vector index, one by seed), each with its own options
     for (k, fi) in [(0u64, (id as usize) % fams.len()), (1u64, pick(seed, id * 7 + 1, fams.len()))] {
         let (fam_name, fam) = &fams[fi];
